@@ -56,6 +56,9 @@ func Each(tier string, shard, nShards, stride int, f func(Set)) {
 	for _, s := range lateRevisionSets() {
 		emit(s)
 	}
+	for _, s := range inconsistentDeviationSets() {
+		emit(s)
+	}
 	names, files := c05.Scenarios()
 	for j := range names {
 		emit(Set{"conflict", names[j], files[j]})
@@ -121,6 +124,40 @@ func lateRevisionSets() []Set {
 				out = append(out, Set{"late", fmt.Sprintf("late-revision loaded=%s import=%s problem=%s", loaded.name, sel.name, p.name), append(append([]dump.File{}, loaded.files...), user)})
 			}
 		}
+	}
+	return out
+}
+
+// inconsistentDeviationSets: deviations that are applicable one by one but leave the target in a
+// state a schema could not be written in (min above max, mandatory with a default, a default the new
+// type does not admit, config true below config false, a list without its key): whatever the library
+// makes of them, a clean Process must leave proper trees without recorded errors.
+func inconsistentDeviationSets() []Set {
+	base := `module base { namespace "urn:base"; prefix base;
+ container top { list li { key k; unique "u"; leaf k { type string; } leaf u { type string; } min-elements 2; } leaf-list ll { type string; min-elements 3; max-elements 5; }
+  leaf d { type string; default abc; } leaf m { type string; mandatory true; } container ro { config false; leaf x { type string; } list rl { key k; leaf k { type string; } max-elements 4; } }
+  choice ch { default s; leaf s { type string; } leaf t { type string; } } }
+ grouping g { list gl { key k; leaf k { type string; } min-elements 1; } } container u1 { uses g; } container u2 { uses g; }
+}`
+	devs := []struct{ name, body string }{
+		{"min-above-max-by-add", `deviation /b:top/b:li { deviate add { max-elements 1; } }`},
+		{"min-above-max-by-replace-min", `deviation /b:top/b:ll { deviate replace { min-elements 9; } }`},
+		{"min-above-max-by-replace-max", `deviation /b:top/b:ll { deviate replace { max-elements 2; } }`},
+		{"min-above-max-in-a-grouping-copy", `deviation /b:u1/b:gl { deviate add { max-elements 0; } }`},
+		{"min-above-max-two-steps", `deviation /b:top/b:ro/b:rl { deviate add { min-elements 3; } deviate replace { max-elements 2; } }`},
+		{"mandatory-with-default", `deviation /b:top/b:d { deviate add { mandatory true; } }`},
+		{"default-on-mandatory", `deviation /b:top/b:m { deviate add { default x; } }`},
+		{"default-not-of-new-type", `deviation /b:top/b:d { deviate replace { type int8; } }`},
+		{"config-true-below-false", `deviation /b:top/b:ro/b:x { deviate replace { config true; } }`},
+		{"key-leaf-not-supported", `deviation /b:top/b:li/b:k { deviate not-supported; }`},
+		{"unique-leaf-not-supported", `deviation /b:top/b:li/b:u { deviate not-supported; }`},
+		{"choice-default-case-not-supported", `deviation /b:top/b:ch/b:s { deviate not-supported; }`},
+		{"mandatory-choice-with-default", `deviation /b:top/b:ch { deviate add { mandatory true; } }`},
+	}
+	var out []Set
+	for _, d := range devs {
+		out = append(out, Set{"late", "inconsistent-deviation " + d.name, []dump.File{{Name: "base.yang", Text: base},
+			{Name: "dev.yang", Text: `module dev { namespace "urn:dev"; prefix dev; import base { prefix b; } ` + d.body + ` }`}}})
 	}
 	return out
 }
